@@ -171,3 +171,109 @@ def check_start_single_wrapping(bs: int, n: int, failmask: int, premask: int) ->
     # call() never sees a rejected element
     seen = [c[0][1] if bs == 1 else c[1] for c in calls]
     return seen == [i for i in range(n) if not premask >> i & 1]
+
+
+# ---- the collector thread's loop: what goes into a batch and what is short-circuited -----------------------------------
+class _NullLock:
+    def __enter__(self):
+        return self
+
+    def __exit__(self, *a):
+        return False
+
+
+class InQueue(ListQueue):
+    """Input queue of a worker: items already there; the collector holds its read lock while it drains."""
+
+    def __init__(self, items):
+        super().__init__(items)
+        self._rlock = _NullLock()
+
+    def empty(self):
+        return not self.items
+
+
+class BatchBuffer:
+    """SingleLane between the collector and the batch consumer, never full here (capacity batch_size + 10)."""
+
+    def __init__(self):
+        self.items = []
+        self._not_full = _NullLock()
+
+    def full(self):
+        return False
+
+    def put(self, z):
+        self.items.append(z)
+
+    def qsize(self):
+        return len(self.items)
+
+
+class Event0:
+    def is_set(self):
+        return False
+
+    def clear(self):
+        pass
+
+
+KIND_INPUT, KIND_EXC, KIND_REMOTE, KIND_REJECTED = 0, 1, 2, 3
+
+
+def check_build_input_batches(k0: int, k1: int, k2: int, n: int, pre: int) -> bool:
+    """
+    pre: 0 <= k0 <= 3 and 0 <= k1 <= 3 and 0 <= k2 <= 3 and 1 <= n <= 3 and 0 <= pre <= 1
+    twin-pre: k0 == 0 and n >= 2
+    post: _
+    """
+    from mpservice.multiprocessing.remote_exception import RemoteException
+    kinds = [k0, k1, k2][:n]
+
+    def upstream(i):
+        try:
+            raise KeyError('upstream', i)
+        except KeyError as e:
+            return e
+
+    items = []
+    for i, k in enumerate(kinds):
+        if k == KIND_EXC:
+            x = upstream(i)                      # an exception object travelling as a value (thread queues)
+        elif k == KIND_REMOTE:
+            x = RemoteException(upstream(i))     # the form in which an upstream failure crosses a process boundary
+        else:
+            x = ('x', i)
+        items.append((100 + i, x))
+
+    class Wk(W.Worker):
+        if pre:
+            def preprocess(self, x):
+                if not (isinstance(x, tuple) and x and x[0] == 'x'):
+                    raise AssertionError('preprocess got a non-input')   # failures must never be handed to preprocess
+                if kinds[x[1]] == KIND_REJECTED:
+                    raise ValueError('rejected', x[1])
+                return x
+
+    w = object.__new__(Wk)
+    w.batch_size = 2
+    w._batch_buffer = BatchBuffer()
+    w._batch_get_called = Event0()
+    q_in, q_out = InQueue(items + [None]), ListQueue()
+    w._build_input_batches(q_in, q_out)
+    rejected = lambda i: pre == 1 and kinds[i] == KIND_REJECTED  # noqa
+    want_buffer = [(100 + i, ('x', i)) for i, k in enumerate(kinds)
+                   if k in (KIND_INPUT, KIND_REJECTED) and not rejected(i)] + [None]
+    if w._batch_buffer.items != want_buffer:
+        return False        # only genuine, accepted inputs may reach a batch, in arrival order; then the end marker
+    outs = [z for z in q_out.items if z is not None]
+    want_fail = [i for i, k in enumerate(kinds) if k in (KIND_EXC, KIND_REMOTE) or rejected(i)]
+    if [u for u, _ in outs] != [100 + i for i in want_fail] or q_out.items.count(None) != 1 or q_in.items != [None]:
+        return False        # every failed element is short-circuited to the output, once, in order
+    for (u, y), i in zip(outs, want_fail):
+        if not isinstance(y, RemoteException):
+            return False
+        want_args = ('rejected', i) if rejected(i) else ('upstream', i)
+        if y.exc.args != want_args:
+            return False
+    return True
